@@ -120,25 +120,25 @@ def slices(tier):
     th = tier == "thorough"
     s = {}
     # the life of a healthy job: every outcome, pending situations, cluster changes inside a poll, a kill at any point, wait()
-    s["life"] = dict(Outcomes=sset(ALL_OUT), Pendings='{"creating", "errpull"}' if th else '{"creating"}', MaxTicks=4 if th else 3, MaxKills=1, Mids="{1, 2}", MaxMid=1, Idle="TRUE",
-                     MaxPeek=1, Gcs='{"none", "all"}' if th else '{"none"}', Interrupts="TRUE" if th else "FALSE")
+    s["life"] = dict(Outcomes=sset(ALL_OUT), Pendings='{"creating"}', MaxTicks=4 if th else 3, MaxKills=1, Mids="{1, 2}", MaxMid=1, Idle="TRUE",
+                     MaxPeek=1, Gcs='{"none"}', Interrupts="TRUE" if th else "FALSE")
     # configuration: garbage collection and archiving rules, cacheImage off, creation failures
     s["config"] = dict(Outcomes='{"ok", "err"}', Gcs='{"none", "all", "failed", "successful"}', Archives='{"none", "all", "failed", "successful"}',
                        Caches="{TRUE, FALSE}", CreateKinds='{"ok", "e403", "e504", "conn", "blip504", "blipconn"}', MaxTicks=3, MaxKills=1)
     # image pull errors: the budget of 5 (+1) observations, also spent by terminate()
     s["pull"] = dict(Outcomes='{"deadline0"}', Pendings='{"errpull"}', MaxTicks=7, MaxKills=1 if th else 0, Gcs='{"none", "failed"}')
     # an API outage over many polls: limits (5 minutes / 3 polls), every failure kind, at the first or a later request
-    s["outage"] = dict(Outcomes='{"ok"}', Kinds=sset(["e503", "conn"] + (["e504"] if th else [])), Froms="{1, 2}" if th else "{1}", MaxTicks=7 if th else 6,
+    s["outage"] = dict(Outcomes='{"ok"}', Kinds=sset(["e503", "conn"] + (["e504"] if th else [])), Froms="{1}", MaxTicks=7 if th else 6,
                        MaxBad=6 if th else 5)
     # failures at every request position of a step (nodes call, log calls, deletion, ...), blips (retry succeeds)
-    s["faults"] = dict(Outcomes='{"ok", "err"}' if th else '{"ok"}', Kinds=sset(ALL_KINDS), Froms="{1, 2, 3, 4, 5, 6}", KillFroms="{1, 2, 3, 4, 5}", MaxTicks=3 if th else 2, MaxBad=1,
+    s["faults"] = dict(Outcomes='{"ok", "err"}' if th else '{"ok"}', Kinds=sset(ALL_KINDS), Froms="{1, 2, 3, 4, 5, 6}", KillFroms="{1, 2, 3, 4, 5}", MaxTicks=2, MaxBad=1,
                        MaxKills=1, Gcs='{"none", "all"}', Archives='{"none", "all"}' if th else '{"none"}', Interrupts="TRUE")
     # other actors: pod deleted (replacement -> two pods), job deleted, pod object garbage-collected, node lost, two-phase conditions
-    s["others"] = dict(Outcomes='{"ok", "err"}', MaxDel=1, JobDel="TRUE", PodGC="TRUE", Lost="TRUE", MaxTicks=5 if th else 3, MaxKills=1, Gcs='{"none", "all"}' if th else '{"none"}')
+    s["others"] = dict(Outcomes='{"ok", "err"}', MaxDel=1, JobDel="TRUE", PodGC="TRUE", Lost="TRUE", MaxTicks=4 if th else 3, MaxKills=1, Gcs='{"none", "all"}' if th else '{"none"}')
     s["twophase"] = dict(Outcomes='{"ok", "err"}', TwoPhase="TRUE", MaxTicks=3, MaxKills=1)
     # kill under an outage, twice, with two pods
-    s["kills"] = dict(Outcomes='{"ok"}', Kinds=sset(["e503", "conn"] + (["e504"] if th else [])), Froms="{1}", KillFroms="{1, 2, 4}" if th else "{1, 3}", MaxTicks=2,
-                      MaxBad=2 if th else 1, MaxKills=2, MaxDel=1, Interrupts="TRUE")
+    s["kills"] = dict(Outcomes='{"ok"}', Kinds=sset(["e503", "conn"] + (["e504"] if th else [])), Froms="{1}", KillFroms="{1, 2, 3, 4}" if th else "{1, 3}", MaxTicks=2,
+                      MaxBad=1, MaxKills=2, MaxDel=1, Interrupts="TRUE")
     return s
 
 
@@ -347,10 +347,11 @@ def replay_path(d, init_state, path):
         D.close()
 
 
-def check_job_body(D):
+def check_job_body(D, light=False):
     """the Job document the real generator + task submitted"""
     b = D.cluster.body
     bad = []
+    walltime = 10 if light else D.walltime
     try:
         spec = b["spec"]
         pod = spec["template"]["spec"]
@@ -359,8 +360,8 @@ def check_job_body(D):
             bad.append("backoffLimit/completions %s/%s" % (spec.get("backoffLimit"), spec.get("completions")))
         if pod.get("restartPolicy") != "Never":
             bad.append("restartPolicy %s" % pod.get("restartPolicy"))
-        if pod.get("activeDeadlineSeconds") != int(D.walltime * 60):
-            bad.append("activeDeadlineSeconds %s for walltime %s min" % (pod.get("activeDeadlineSeconds"), D.walltime))
+        if pod.get("activeDeadlineSeconds") != int(walltime * 60):
+            bad.append("activeDeadlineSeconds %s for walltime %s min" % (pod.get("activeDeadlineSeconds"), walltime))
         if c.get("command") != ["/bin/app"] or c.get("args") != ["-n", "3", "a b"]:
             bad.append("command %s args %s" % (c.get("command"), c.get("args")))
         env = {e["name"]: e.get("value") for e in c.get("env", [])}
@@ -375,6 +376,9 @@ def check_job_body(D):
         lim = (c.get("resources") or {}).get("limits") or {}
         if lim != (c.get("resources") or {}).get("requests"):
             bad.append("guaranteed qos needs requests == limits: %s" % c.get("resources"))
+        want = {"cpu": 0.1, "memory": str(250 * 1024 * 1024)} if light else {"cpu": 1.0, "memory": "2Gi"}
+        if {k: lim.get(k) for k in want} != want:
+            bad.append("resource limits %s, expected %s" % (lim, want))
     except (KeyError, TypeError, IndexError) as e:
         bad.append("job document incomplete: %r" % e)
     return bad
@@ -716,7 +720,7 @@ def validate_traces(chk, tag, traces):
 
 
 def code_to_spec(chk, tier, only_seed=None):
-    n = 240 if tier == "quick" else 2400
+    n = 240 if tier == "quick" else 1200
     seeds = [chk.seed * 1000003 + i for i in range(n)] if only_seed is None else [only_seed]
     k = max(1, (len(seeds) + 13) // 14)
     res = pool_map(_runs_chunk, [(seeds[i:i + k], os.path.join(chk.scratch, "rr_%d" % i)) for i in range(0, len(seeds), k)])
@@ -877,6 +881,20 @@ def function_specs(chk, tier):
             if SW["FirstConditionWins"] == "TRUE" and c["case"]["job"] == "other" and c["res"]["x"]["st"] == "None":
                 FOUND[F_COND] = FOUND.get(F_COND, 0) + (r is None)
     chk.cov["getTaskState_cases"] = n
+    # the documents of the two generators
+    from .. import world_g06 as G
+    for light in (False, True):
+        D = G.Driver(os.path.join(chk.scratch, "gen_%s" % light), gc="failed", archive="all")
+        try:
+            o = D.construct(light=light)
+            bad = check_job_body(D, light) if D.task is not None else ["no task: %s" % o["raised"]]
+            if D.task is not None and (D.task.garbage_collect, D.task.archive_objects) != ("failed", "none" if light else "all"):
+                bad.append("garbage_collect / archive_objects %s / %s" % (D.task.garbage_collect, D.task.archive_objects))
+            chk.evaluated(("generator", light))
+            if bad:
+                chk.violation("generator:%s:job-document" % ("light" if light else "full"), "; ".join(bad), {"kind": "generator", "light": light})
+        finally:
+            D.close()
     # isAlive / returncode / exitReason / status / poll
     ex = emit_cases(chk, "exit_grid", dict(Part='"exit"'), "EmitExit")
     if len(ex) < 1000:
